@@ -21,12 +21,13 @@ DRIVERS = ["driver_deribit"]
 RULE = ("[deribit] sequences of 1-10 operations on one frozen book with bids <= mark <= asks (25 % of the sides as unsorted rows with repeated "
         "prices; 35 % of the books with an ask exactly on multiple x mark and a bid exactly on mark / multiple, bought / sold with that multiple "
         "and amounts reaching into the tie level; 15 % of the books with a deep instrument whose mark is a few fee steps small and mostly OFF "
-        "the fee grid (0.0000016, 0.0000235 ...), best ask / best bid on or next to the raw mark, plus two directed sequences with mark = ask = "
+        "the fee grid (0.0000016, 0.0000235 ...), best ask / best bid on or next to the raw mark (30 % of them with every price on the fee grid), plus two directed sequences with mark = ask = "
         "0.0000016 / mark = bid = 0.0000014); buckets = (operation, amount class incl. zero / negative / "
         "exact holding / holding+1 / x10 / whole wallet / whole cash, pricing mode, outcome, open or closed bar)")
 TRUSTED = ["float arithmetic of order-book sizes reproduced with Lean Float in the driver; value theorems are stated for exact arithmetic (DCtx.exact)"]
 ASSUMPTIONS = ["order-book data constrained so bids <= mark <= asks on the RAW mark (property text); the value theorems need in addition that the mark "
-               "is a multiple of the fee step (MarkOnGrid: the valuation rounds the mark to 1e-6 ETH / 1e-8 BTC) - off the grid the code gains up to "
+               "is a multiple of the fee step (MarkOnGrid: the valuation rounds the mark to 1e-6 ETH / 1e-8 BTC) or that every book price is one "
+               "(PricesOnGrid, what the exchange's tick size gives) - with mark and a price off the grid the code gains up to "
                "half a fee step per contract (known finding deribit.buy/sell.value-created.offgrid-mark-*, visible for marks below about 4e-6 "
                "where the rounding beats the 12.5 % fee cap)", "instrument names unique, sizes non-negative"]
 
@@ -89,21 +90,24 @@ def gen_tiny_instr(rng, idx, token, now):
     k = rng.choice((14, 15, 16, 24, 25, 26, 34, 35, 36, 44, 45, 46, rng.randint(1, 99), rng.randint(1, 99), rng.randint(100, 4999), 20, 30))
     size = lambda: rng.choice((1000, 5000, 20000, float(rng.randint(100, 100000)), rng.randint(100, 100000)))  # noqa: E731
     asks, bids = [], []
+    ticks = rng.random() < 0.3                            # every PRICE on the fee grid, the mark anywhere between them (PricesOnGrid): no gain possible
     ka = k + rng.choice((0, 0, 0, 1, 2, 5))
+    kb = k - rng.choice((0, 0, 0, 1, 2, 5))
+    if ticks:
+        ka, kb = -(-ka // 10) * 10, kb // 10 * 10
     for _ in range(rng.choice((1, 1, 2, 3))):
         asks.append([px(ka), size()])
-        ka += rng.choice((1, 3, 10, 25))
-    kb = k - rng.choice((0, 0, 0, 1, 2, 5))
+        ka += rng.choice((10, 20, 50)) if ticks else rng.choice((1, 3, 10, 25))
     for _ in range(rng.choice((1, 1, 2, 3))):
         if kb <= 0:
             break
         bids.append([px(kb), size()])
-        kb -= rng.choice((1, 3, 10, 25))
+        kb -= rng.choice((10, 20, 50)) if ticks else rng.choice((1, 3, 10, 25))
     kind = rng.choice(("CALL", "PUT"))
     strike = rng.choice(range(1000, 3001, 50))
     return {"name": f"{token}-D{idx}-{strike}-{'C' if kind == 'CALL' else 'P'}", "state": "open", "kind": kind, "strike": strike,
             "expiry": now + rng.choice((60, 600, 30000)), "mark": px(k), "underlying": round(rng.uniform(1200, 2600), 2),
-            "delta": round(rng.uniform(-1, 1), 5), "gamma": round(rng.uniform(0, 0.01), 5), "asks": asks, "bids": bids, "tiny": True}
+            "delta": round(rng.uniform(-1, 1), 5), "gamma": round(rng.uniform(0, 0.01), 5), "asks": asks, "bids": bids, "tiny": "ticks" if ticks else "free"}
 
 
 def gen_op(rng, spec, held, wallet, cash):
@@ -124,7 +128,7 @@ def gen_op(rng, spec, held, wallet, cash):
                 amount, acls = rng.choice((Decimal(1000), Decimal(100), 1, 20, Decimal(rng.randint(1, 5000)))), "lot"
             else:
                 amount, acls = L.gen_amount(rng, levels, token)
-            return {"type": side, "name": ins["name"], "amount": amount}, f"market~tiny:{acls}"
+            return {"type": side, "name": ins["name"], "amount": amount}, f"market~tiny-{ins['tiny']}:{acls}"
         op, tag = L.gen_trade(rng, spec["instrs"], token, positions=held)
         if any(i.get("tiny") and i["name"] == op.get("name") for i in spec["instrs"]):
             tag = tag.replace(":", "~tiny:", 1)
